@@ -250,6 +250,18 @@ def check_real(item, acc):
             uf, wf, Lf = f.fit(second, K=K, seed=seed, baseline_r0=False)
             if not (np.shape(u2) == np.shape(uf) and np.allclose(u2, uf) and np.allclose(w2, wf) and abs(L2 - Lf) < 1e-12):
                 bad("second-fit-stale", "second fit on the same object returned maxL %r (u shape %r), a fresh object returns %r (u shape %r)" % (L2, np.shape(u2), Lf, np.shape(uf)))
+        # fit, change the SAME hypergraph object in place, fit again: must equal a fresh model on the changed hypergraph
+        acc.evaluations += 1
+        g = mk(None, edges, weights, isolated)
+        m = MT.HypergraphMT(n_realizations=1, max_iter=3, verbose=False)
+        m.fit(g, K=K, seed=seed, baseline_r0=False)
+        extra = (2, 11) if (2, 11) not in [tuple(sorted(e)) for e in edges] else (5, 11)
+        g.add_edge(extra, weight=2) if weights else g.add_edge(extra)
+        u2, w2, L2 = m.fit(g, K=K, seed=seed, baseline_r0=False)
+        f = MT.HypergraphMT(n_realizations=1, max_iter=3, verbose=False)
+        uf, wf, Lf = f.fit(g, K=K, seed=seed, baseline_r0=False)
+        if not (np.shape(u2) == np.shape(uf) and np.allclose(u2, uf) and np.shape(w2) == np.shape(wf) and np.allclose(w2, wf) and abs(L2 - Lf) < 1e-12):
+            bad("second-fit-stale", "fit, add_edge(%r) on the same hypergraph object, fit again: maxL %r, a fresh model gives %r" % (extra, L2, Lf))
         acc.nontrivial.add(hash(("real", edges, weights, isolated, K, seed)))
     except Exception as e:
         bad("exception", "raised %s: %s" % (type(e).__name__, e))
